@@ -429,11 +429,65 @@ func rawMutants(si *stepInfo, req *rt.Wire, rng *vh.RNG, limit int) []rawMut {
 			}
 		}
 	}
-	if limit > 0 && len(out) > limit {
-		for len(out) > limit {
-			i := rng.Intn(len(out))
-			out = append(out[:i], out[i+1:]...)
+	// ---- cookies: omit each cookie the request carries
+	if m.HTTP != nil {
+		ckKey := ""
+		for k := range base.Headers {
+			if strings.EqualFold(k, "Cookie") {
+				ckKey = k
+			}
 		}
+		if ckKey != "" {
+			var pairs []string
+			for _, h := range base.Headers[ckKey] {
+				for _, p := range strings.Split(h, ";") {
+					if p = strings.TrimSpace(p); p != "" {
+						pairs = append(pairs, p)
+					}
+				}
+			}
+			for _, s := range ss {
+				if len(s.path) != 1 || s.loc != "cookie" || s.val == nil || s.val.K == "null" {
+					continue
+				}
+				w := wireNameOf(m.HTTP.Cookies, s.path[0].Field)
+				var keep []string
+				found := false
+				for _, p := range pairs {
+					if strings.HasPrefix(p, w+"=") {
+						found = true
+					} else {
+						keep = append(keep, p)
+					}
+				}
+				if !found {
+					continue
+				}
+				r := cloneRaw(base)
+				if len(keep) == 0 {
+					delete(r.Headers, ckKey)
+				} else {
+					r.Headers[ckKey] = []string{strings.Join(keep, "; ")}
+				}
+				mk(r, "raw:delete-cookie", pathString(s.path), replaceAt(si.Payload, s.path, nil), false)
+			}
+		}
+	}
+	if limit > 0 && len(out) > limit {
+		// every omission is kept; the other wire mutants are sampled
+		var keep, rest []rawMut
+		for _, o := range out {
+			if strings.HasPrefix(o.info.Desc, "raw:delete-") {
+				keep = append(keep, o)
+			} else {
+				rest = append(rest, o)
+			}
+		}
+		for len(keep)+len(rest) > limit && len(rest) > 0 {
+			i := rng.Intn(len(rest))
+			rest = append(rest[:i], rest[i+1:]...)
+		}
+		out = append(keep, rest...)
 	}
 	for i := range out {
 		out[i].info.Desc = fmt.Sprint(out[i].info.Desc)
